@@ -99,8 +99,20 @@ class SymbolicRepr:
         return pformat(self)
 
 
-def _fn_to_symbolic_repr(k: str, fn: Callable, model_args: list[str]) -> SymbolicFn:
-    fn_name = fn.__name__
+def _unique_fn_name(fn: Callable, names: dict[str, Callable]) -> str:
+    """Name of the generated function. Different functions sharing a __name__ get a suffix."""
+    fn_name = base = fn.__name__
+    i = 1
+    while names.setdefault(fn_name, fn) is not fn:
+        i += 1
+        fn_name = f"{base}_{i}"
+    return fn_name
+
+
+def _fn_to_symbolic_repr(
+    k: str, fn: Callable, model_args: list[str], names: dict[str, Callable]
+) -> SymbolicFn:
+    fn_name = _unique_fn_name(fn, names)
     args = cast(list, list_of_symbols(model_args))
     if (expr := fn_to_sympy(fn, origin=k, model_args=args)) is None:
         msg = f"Unable to parse fn for '{k}'"
@@ -110,10 +122,11 @@ def _fn_to_symbolic_repr(k: str, fn: Callable, model_args: list[str]) -> Symboli
 
 def _to_symbolic_repr(model: Model) -> SymbolicRepr:
     sym = SymbolicRepr()
+    names: dict[str, Callable] = {}
 
     for k, variable in model.get_raw_variables().items():
         sym.variables[k] = SymbolicVariable(
-            value=_fn_to_symbolic_repr(k, val.fn, val.args)
+            value=_fn_to_symbolic_repr(k, val.fn, val.args, names)
             if isinstance(val := variable.initial_value, InitialAssignment)
             else sympy.Float(val),
             unit=cast(Quantity, variable.unit),
@@ -121,20 +134,20 @@ def _to_symbolic_repr(model: Model) -> SymbolicRepr:
 
     for k, parameter in model.get_raw_parameters().items():
         sym.parameters[k] = SymbolicParameter(
-            value=_fn_to_symbolic_repr(k, val.fn, val.args)
+            value=_fn_to_symbolic_repr(k, val.fn, val.args, names)
             if isinstance(val := parameter.value, InitialAssignment)
             else sympy.Float(val),
             unit=cast(Quantity, parameter.unit),
         )
 
     for k, der in model.get_raw_derived().items():
-        sym.derived[k] = _fn_to_symbolic_repr(k, der.fn, der.args)
+        sym.derived[k] = _fn_to_symbolic_repr(k, der.fn, der.args, names)
 
     for k, rxn in model.get_raw_reactions().items():
         sym.reactions[k] = SymbolicReaction(
-            fn=_fn_to_symbolic_repr(k, rxn.fn, rxn.args),
+            fn=_fn_to_symbolic_repr(k, rxn.fn, rxn.args, names),
             stoichiometry={
-                k: _fn_to_symbolic_repr(k, v.fn, v.args)
+                k: _fn_to_symbolic_repr(k, v.fn, v.args, names)
                 if isinstance(v, Derived)
                 else sympy.Float(v)
                 for k, v in rxn.stoichiometry.items()
